@@ -52,16 +52,22 @@ func loadKnown(path string) ([]*KnownFinding, error) {
 }
 
 type FuncReport struct {
-	Key       string
-	Paths     int
-	Panics    int
-	Bounded   int
-	Notes     []string
-	Aborted   string
-	UsedEnv   []string
-	Inlined   []string
-	Clauses   []string
-	EvalError string
+	Key         string
+	Paths       int
+	Panics      int
+	Bounded     int
+	Notes       []string
+	Aborted     string
+	UsedEnv     []string
+	Inlined     []string
+	Clauses     []string
+	EvalError   string
+	Unexercised []string // each-forms that matched no event on any path
+}
+
+type eachKey struct {
+	c *Clause
+	n *Node
 }
 
 type Verifier struct {
@@ -200,6 +206,42 @@ func (v *Verifier) VerifyFunc(fc *FuncContract) {
 		hyps := append(append(append([]*Term(nil), lo.St.PC...), lo.St.Facts...), ex.GlobalFacts...)
 		v.Obls = append(v.Obls, &Obligation{Name: obligationName(fc, lo.Name), Func: fc.Key, Label: lo.Name, Kind: lo.Kind, Hyps: hyps, Goal: lo.Goal, Trace: traceStrings(lo.St)})
 	}
+	if v.Tier == "thorough" {
+		// path feasibility: at least one returning path of the function must be
+		// satisfiable together with the environment facts (otherwise every clause
+		// would hold vacuously); up to 16 paths are sampled
+		step := len(outs)/16 + 1
+		for i := 0; i < len(outs); i += step {
+			o := outs[i]
+			if o.Panic {
+				continue
+			}
+			hyps := append(append(append([]*Term(nil), o.St.PC...), o.St.Facts...), ex.GlobalFacts...)
+			v.Obls = append(v.Obls, &Obligation{Name: obligationName(fc, "feasible_path"), Func: fc.Key, Label: "feasible_path", Kind: "cover_path", Path: i, Hyps: hyps, Goal: TTrue, WantSat: true})
+		}
+	}
+	eachStat := map[eachKey]bool{}
+	defer func() {
+		// vacuity: an each-form that matches no event on any explored path constrains nothing
+		var ks []eachKey
+		if os.Getenv("GVC_DEBUG_EACH") != "" {
+			fmt.Fprintf(os.Stderr, "each-forms of %s: %d\n", fc.Key, len(eachStat))
+		}
+		for k, ok := range eachStat {
+			if !ok {
+				ks = append(ks, k)
+			}
+		}
+		sort.Slice(ks, func(i, j int) bool { return ks[i].c.Label+ks[i].n.S < ks[j].c.Label+ks[j].n.S })
+		for _, k := range ks {
+			rep.Unexercised = append(rep.Unexercised, k.c.Label+": each "+k.n.S)
+			if k.c.Default || ex.Aborted != "" {
+				continue // default contracts are prohibitions: nothing has to happen
+			}
+			v.Obls = append(v.Obls, &Obligation{Name: obligationName(fc, k.c.Label) + "/exercised", Func: fc.Key, Label: k.c.Label, Kind: "vacuity", Goal: TFalse,
+				Notes: []string{"the clause quantifies over " + k.n.S + " events, but no explored path of the function performs one: the clause constrains nothing (the contract was written for code that did)"}})
+		}
+	}()
 	for i, o := range outs {
 		if o.Panic {
 			rep.Panics++
@@ -227,7 +269,17 @@ func (v *Verifier) VerifyFunc(fc *FuncContract) {
 				rep.EvalError = err.Error()
 				continue
 			}
+			env.exercised, env.seenEach = map[*Node]bool{}, map[*Node]bool{}
 			goal, err := env.EvalBool(c.Expr)
+			for n := range env.seenEach {
+				k := eachKey{c, n}
+				if _, has := eachStat[k]; !has {
+					eachStat[k] = false
+				}
+				if env.exercised[n] {
+					eachStat[k] = true
+				}
+			}
 			if err != nil {
 				if strings.Contains(err.Error(), "result on a panicking path") {
 					continue
